@@ -989,7 +989,9 @@ def unit_bounded_numbered_keys(U):
                         fails.append(dict(case, expected=exp, observed=repr(e)))
     U.bounded_result("C05.bounded.numbered_keys", "later arrivals of a key that ends in '_<digits>' are filed under '<that key>_<n>'", "5 keys x create_unique / merge fallback x with / without a feature '<stem>_1' x create_db / update", cases, fails)
 
-UNITS = [("bounded.numbered_keys", unit_bounded_numbered_keys), ("bounded.repeats", unit_bounded_repeats), ("bounded.after_duplicate", unit_bounded_after_duplicate), ("bounded.explicit", unit_bounded_explicit), ("do_merge", unit_do_merge), ("candidates", unit_candidates), ("merge_candidate", unit_merge_candidate), ("get_feature", unit_get_feature), ("collision_merge", unit_collision_merge), ("merge_no_candidate", unit_merge_no_candidate), ("collision", unit_collision), ("collision_each", unit_collision_each), ("init", unit_init), ("bounded.merge", unit_bounded_merge), ("bounded.force_fields", unit_bounded_force_fields)]
+from pyvc.harness import dep_unit as _dep_unit
+
+UNITS = [("dep.delete", _dep_unit("C10", "unit_delete", "C10", "C05.dep", "delete() removes the features and their relations and nothing else - in particular not the records of the duplicates table that later merges consult (the C10 obligations), discharged in this check as well")), ("bounded.numbered_keys", unit_bounded_numbered_keys), ("bounded.repeats", unit_bounded_repeats), ("bounded.after_duplicate", unit_bounded_after_duplicate), ("bounded.explicit", unit_bounded_explicit), ("do_merge", unit_do_merge), ("candidates", unit_candidates), ("merge_candidate", unit_merge_candidate), ("get_feature", unit_get_feature), ("collision_merge", unit_collision_merge), ("merge_no_candidate", unit_merge_no_candidate), ("collision", unit_collision), ("collision_each", unit_collision_each), ("init", unit_init), ("bounded.merge", unit_bounded_merge), ("bounded.force_fields", unit_bounded_force_fields)]
 
 
 def replay_known(entry):
